@@ -29,7 +29,7 @@ DEFAULT = dict(
     p_plain_build=0.15, p_swap_groups=0.0, p_fail_after_nested=0.0,
     p_switch_root=0.3, p_anc_target=0.0, p_stepargs=0.0, p_chain=0.0,
     p_retry=0.0, p_cache_in_output_dir=0.0, p_cache_target=0.02,
-    p_stepcmp=0.0,
+    p_stepcmp=0.0, p_weird_names=0.05,
     p_plain_bf=0.1,
 )
 
@@ -347,6 +347,18 @@ class Gen:
             self.p['body_len'] = save
 
     # ------------------------------------------------------------------
+    WEIRD_NAMES = ['exists', 'get_size', 'is_dir', 'is_file', 'list_dir',
+                   'read', 'walk', '', 'build_file', 'subbuild', 'same',
+                   'same', 'None', 'n\u00e9']
+
+    def func_name(self, fid):
+        """Function names are arbitrary user strings: sometimes the name of
+        a simple operation, the empty string, or a name shared by two
+        functions (which then share one version)."""
+        if self.chance('p_weird_names'):
+            return self.rng.choice(self.WEIRD_NAMES)
+        return 'n' + fid
+
     def gen_chain(self, U, idx0):
         """A structured program: a chain of nested build_file / subbuild
         calls, each level with its own failure mode and catch clause, plus
@@ -399,7 +411,7 @@ class Gen:
                     body.insert(rng.randint(0, len(body)), ['w', 'once'])
             if mode == 'raise_after':
                 body.append(['raise', rng.choice(USER_EXC)])
-            funcs[fid] = {'kind': kind, 'name': 'n' + fid,
+            funcs[fid] = {'kind': kind, 'name': self.func_name(fid),
                           'variants': [body]}
             catch = rng.random() < 0.8
             if kind == 'file':
@@ -476,7 +488,7 @@ class Gen:
                 nv = 2 if self.chance('p_two_variants') else 1
                 variants = [self.gen_body(ctx, i, 1, kind == 'file')
                             for _ in range(nv)]
-                funcs[fid] = {'kind': kind, 'name': 'n' + fid,
+                funcs[fid] = {'kind': kind, 'name': self.func_name(fid),
                               'variants': variants}
             save = self.p['w_raise']
             self.p['w_raise'] = save * 0.4
@@ -700,9 +712,17 @@ def gen_stragglers(seed, params=None):
         elif r < 0.8:
             fid = 'FO%d' % k
             pos = rng.randint(0, len(body))
-            body.insert(pos, ['w', 'once'])
-            if rng.random() < 0.2:
+            r2 = rng.random()
+            if r2 < 0.65:
+                body.insert(pos, ['w', 'once'])
+            elif r2 < 0.8:
+                body.insert(pos, ['w', 'unlink'])
+            # else: the function never creates its file
+            r3 = rng.random()
+            if r3 < 0.2:
                 body.append(['raise', 'UserError'])
+            elif r3 < 0.3:
+                body.append(['ret', 'nonjson'])
             funcs[fid] = {'kind': 'file', 'name': 'n' + fid,
                           'variants': [body]}
             root.append(['bf', 'o%d' % k, fid, [], {}, 'METADATA', True])
